@@ -7,7 +7,7 @@ import gpar
 META = dict(
     technique="TLC exhaustive model check of TCPDialer.tla (resolve + rotating start index, per-address tryDial: deadline test, slot acquire / slot timeout, DialContext ok/refused/timeout, slot release, loop advance; deadline firing at any moment; invariants + liveness) + TLC trace validation of hook-recorded executions of a real TCPDialer against loopback endpoints that accept, refuse or hang (B2) + measured return times",
     design_ref="DESIGN.md §4 C41",
-    text="TCPDialer.tla has one action per step of dial/tryDial; TLC checks ConcBound (dials in progress and slots <= Concurrency), Rotation (addresses tried once each, in order from the rotating start index, before a non-timeout failure), FreshIndex, Results (timeout only after the deadline) and TimerArmed on all interleavings of 2-3 dials over hosts whose addresses accept/refuse/hang and resolvers that fail or hang, plus liveness: every dial returns once its deadline fired. A real TCPDialer (Concurrency 1, 2, unlimited) with a fake Resolver dials loopback endpoints: listeners (accept), closed ports (refuse) and a never-accepting listener with a full backlog (hang). Slot acquire/release (acquire-after / release-before), attempts and results are recorded at the hooks and every execution is validated by TCPDialerTrace with the invariants evaluated in each reconstructed state. A directed execution fills every slot with hanging dials (2.5 s) while one more dial queues, gets a slot before its own deadline (3.5 s) and hangs too: the queueing time counts against its deadline. Each dial's measured duration is compared with its own timeout + 1.2 s (also carried into the trace as latems); timeouts and upstream failures must be *ErrDialWithUpstream naming the address tried last.",
+    text="TCPDialer.tla has one action per step of dial/tryDial; TLC checks ConcBound (dials in progress and slots <= Concurrency), Rotation (addresses tried once each, in order from the rotating start index, before a non-timeout failure), FreshIndex, Results (timeout only after the deadline) and TimerArmed on all interleavings of 2-3 dials over hosts whose addresses accept/refuse/hang and resolvers that fail or hang, plus liveness: every dial returns once its deadline fired. A real TCPDialer (Concurrency 1, 2, unlimited) with a fake Resolver dials loopback endpoints: listeners (accept), closed ports (refuse) and a never-accepting listener with a full backlog (hang). Slot acquire/release (acquire-after / release-before), attempts and results are recorded at the hooks and every execution is validated by TCPDialerTrace with the invariants evaluated in each reconstructed state. The dialer's options are a dimension of every execution (DisableDNSResolution with literal addresses, DNSCacheDuration default / 1 ns / 1 h, LocalAddr, Concurrency); directed executions: concurrent dials to ONE multi-address host with refusing and accepting addresses after a cache-warming dial, with a seeded gate (sleep in the hook) between picking the start address and each attempt, so that each dial's own walk start, start+1, ... is checked while other dials move the shared cursor; hanging dials to literal addresses holding every slot while one more dial must time out waiting; and one that fills every slot with hanging dials (2.5 s) while one more dial queues, gets a slot before its own deadline (3.5 s) and hangs too: the queueing time counts against its deadline. Each dial's measured duration is compared with its own timeout + 1.2 s (also carried into the trace as latems); timeouts and upstream failures must be *ErrDialWithUpstream naming the address tried last.",
     note="Trusted: hook placement in tcpdialer.go, Linux loopback behaviour (127.0.0.0/8, listen backlog 0), Go's net.Dialer. A timing observation only becomes a violation when a dial returns > 1.2 s after its deadline (or not at all within 4.2 s); the directed slot-wait scenario makes a late return 2.5 s late. Start indices may repeat when dials resolve a host concurrently for the first time (each fills the DNS cache with its own entry): the spec allows it. A hanging RESOLVER ends the dial at the deadline with the resolver's own error (not ErrDialTimeout: there is no upstream address yet); this is accepted as result class 'resolveerr'.",
 )
 
